@@ -4,6 +4,39 @@ Import ListNotations.
 Require Import UV.Gen.Consts UV.C09.Model UV.C09.Proofs.
 Local Open Scope N_scope.
 
-Theorem C09_placeholder : forall a, ALIGN 0 a = ((a - 1) / a) * a.
-Proof. exact ALIGN_0. Qed.
-Print Assumptions C09_placeholder.
+(* Framing: for EVERY spec list (any formats, sizes, register/stack/struct addressing) and every input,
+   if save_to_argbuf accepts the data (payload = Some p), read_task_args - which recomputes each length from
+   the stream - consumes exactly p and the writer's padding to 8 bytes, and hands back the bytes behind it.
+   (wf_spec: a string spec has a non-zero size, as parse_argspec always produces.) *)
+Theorem C09_framing : forall fill inp is_ret specs bg p rest,
+  Forall wf_spec specs ->
+  m_unmodelled (run fill inp is_ret specs) = false ->
+  payload (run fill inp is_ret specs) = Some p ->
+  read_args is_ret specs (fit (ALIGN (lenN p) 8) bg p ++ rest) = Some (p, rest).
+Proof. exact framing. Qed.
+Print Assumptions C09_framing.
+
+(* Resync: whatever the payload size, the record is decoded to itself and decoding continues exactly at
+   the record that follows (writer's ALIGN(size,8) = reader's 8 - len mod 8). *)
+Theorem C09_stream_resync : forall k specs_of bg fill inp t ty depth addr pl rest,
+  t < 2 ^ 64 -> ty < 4 -> depth < 1024 -> addr < 2 ^ 48 ->
+  Forall wf_spec (specs_of addr) ->
+  m_unmodelled (run fill inp (ty =? UFTRACE_EXIT) (specs_of addr)) = false ->
+  (pl = None \/ pl = payload (run fill inp (ty =? UFTRACE_EXIT) (specs_of addr))) ->
+  decode_stream (S k) specs_of (enc_rec bg t ty depth addr pl ++ rest) =
+  {| d_time := t; d_type := ty; d_depth := depth; d_addr := addr; d_args := pl |} :: decode_stream k specs_of rest.
+Proof. exact stream_resync. Qed.
+Print Assumptions C09_stream_resync.
+
+(* The string copy loop of save_to_argbuf, in closed form. *)
+Theorem C09_string_short_intact : forall s junk bound,
+  nz s -> lenN s < ARG_STR_MAX -> lenN s < bound ->
+  copy_loop (s ++ 0 :: junk) 0 bound [] 0 = (s ++ [0], lenN s).
+Proof. exact copy_loop_short. Qed.
+Print Assumptions C09_string_short_intact.
+
+Theorem C09_string_long_truncated : forall s1 c junk bound,
+  nz s1 -> lenN s1 = ARG_STR_MAX -> ARG_STR_MAX < bound ->
+  copy_loop (s1 ++ c :: junk) 0 bound [] 0 = (takeN (ARG_STR_MAX - 3) s1 ++ [46; 46; 46; 0], ARG_STR_MAX).
+Proof. exact copy_loop_long. Qed.
+Print Assumptions C09_string_long_truncated.
